@@ -214,6 +214,7 @@ func c13(c *Ctx) {
 	c13HelloFresh(c)
 	c13HandshakeMessageWhole(c)
 	c13RefusalsBeforeCallback(c)
+	c13ExtensionListComplete(c)
 	for _, svc := range Services(c) {
 		if svc.Type.Obj().Name() == "httpsService" || os.Getenv("HT_SWEEP") != "" {
 			channelWired(c, "https-events-delivered", svc)
